@@ -53,7 +53,7 @@ MUT = {
     "C18-r6": {
         "adapt-inline-early-return-on-foreign-domain": [("src/spox/_adapt.py", "    if not seen_domains & {\"\", \"ai.onnx\"}:\n        return protos", "    if not seen_domains & {\"\", \"ai.onnx\"}:\n        return protos\n    if any(d not in SCHEMAS for d in seen_domains if d != \"ai.onnx\"):\n        return protos")],
         "adapt-inline-only-single-import": [("src/spox/_adapt.py", "    if source_version != target_version:\n        target_model", "    if source_version != target_version and len(node.model.opset_import) == 1:\n        target_model")],
-        "inline-opset-req-drops-custom": [("src/spox/_inline.py", "        return {(imp.domain, imp.version) for imp in self.model.opset_import} | {", "        return {(imp.domain, imp.version) for imp in self.model.opset_import if imp.domain in (\"\", \"ai.onnx\", \"ai.onnx.ml\")} | {")],
+        "inline-opset-req-drops-custom": [("src/spox/_inline.py", "        req = {(imp.domain, imp.version) for imp in self.model.opset_import} | {", "        req = {(imp.domain, imp.version) for imp in self.model.opset_import if imp.domain in (\"\", \"ai.onnx\", \"ai.onnx.ml\")} | {")],
         "adapt-inline-skips-subgraph-models": [("src/spox/_adapt.py", "    seen_domains = {prot.domain for prot in protos}", "    seen_domains = {prot.domain for prot in protos}\n    if any(a.type == onnx.AttributeProto.GRAPH for p in protos for a in p.attribute):\n        return protos")],
         "initializer-step-removed": [("src/spox/_adapt.py", "        _initializers_to_constants(target_model.graph)\n", "")],
         "initializer-step-drops-foreign-nodes": [("src/spox/_adapt.py", "    nodes = constants + list(graph.node)", "    nodes = constants + [n for n in graph.node if n.domain in (\"\", \"ai.onnx\")]")],
